@@ -1,6 +1,10 @@
 """C17 -- subgroup membership test is exact and cofactor clearing lands in the subgroup."""
-from .. import subgroup
+from .. import constants, grouptrace, subgroup
 
 
 def run(ctx):
+    constants.check_constants(ctx, ("bls",))
+    # full size: subgroup_check and clear_cofactor of the real module on a G + c T (torsion primes 3, 11 on
+    # E(Fp); 13, 23 on E'(Fp2)), on all kinds of projective representatives, and on arbitrary curve points
+    grouptrace.run_traces(ctx, [("optimized_bls12_381", 1), ("optimized_bls12_381", 2)], all_ells=True)
     subgroup.subgroup_tables(ctx)
